@@ -11,7 +11,7 @@ import leafdsl as L
 from coqemit import cbool, clist, copt, cpair, cstr, outcome
 
 ID = "C01"
-FACTS = ["Bool", "Leaf", "Conflicts", "Defaults", "PipelineSrc"]
+FACTS = ["Bool", "Leaf", "Conflicts", "Defaults", "PipelineSrc", "WrapperSrc"]
 COQ_HEADER = "From SPV Require Import CorrDefs.CorrC01."
 COQ_CASE_TYPE = "case"
 RULE = ("random dataclass trees: 0-3 leaf fields per class over the CLI type grammar of C02 (leafdsl: scalars, Enum, Literal, List, fixed and "
